@@ -159,7 +159,9 @@ func (s *state) step(b *ssa.BasicBlock, ii int, in ssa.Instruction) bool {
 	case *ssa.UnOp:
 		switch d.Op {
 		case token.MUL:
+			u.codeLoad = true
 			s.vals[d] = s.load(d.X, d.Type(), in)
+			u.codeLoad = false
 		case token.ARROW:
 			panic(engineErr("channel receive"))
 		default:
@@ -787,8 +789,8 @@ func (s *state) loopBodyHints(hdr, succ *ssa.BasicBlock) {
 	if li == nil || !li.blocks[succ] {
 		return
 	}
-	fc := s.u.eng.contractFor(fn)
-	if fc == nil || fc.loops[li.ord] == nil || len(fc.loops[li.ord].bodyUses) == 0 {
+	lspec := s.u.loopSpecFor(fn, li.ord)
+	if lspec == nil || len(lspec.bodyUses) == 0 {
 		return
 	}
 	e := s.contractEnv(nil, fn, nil, nil)
@@ -801,7 +803,7 @@ func (s *state) loopBodyHints(hdr, succ *ssa.BasicBlock) {
 	if li.stmt != nil {
 		pos = li.stmt.Pos()
 	}
-	for _, uc := range fc.loops[li.ord].bodyUses {
+	for _, uc := range lspec.bodyUses {
 		for _, x := range uc.exprs {
 			e.what = "loop inbody use " + uc.src
 			s.useHint(e, x, pos, fmt.Sprintf("%s:loop%d:body", funcKey(fn), li.ord))
